@@ -376,8 +376,8 @@ pub fn c10(ctx: &Ctx, rep: &mut Report) {
         }
     }
     // (1) fault injection: every statement position x every fault class
-    let programs = ctx.share(12, 400);
-    let mut cli_budget = ctx.share(2_600, 100_000) as i64;
+    let programs = ctx.share(24, 600);
+    let mut cli_budget = ctx.share(6_000, 150_000) as i64;
     for pi in 0..programs * 6 {
         if cli_budget <= 0 || (ctx.out_of_time() && pi > programs / 2) {
             break;
@@ -452,7 +452,7 @@ pub fn c10(ctx: &Ctx, rep: &mut Report) {
         }
     }
     // (2) malformed sources from token-level mutation
-    let n = ctx.share(900, 40_000);
+    let n = ctx.share(2_400, 60_000);
     for i in 0..n {
         if ctx.out_of_time() && i > n / 3 {
             rep.notes.push(format!("time budget reached after {} of {} mutated sources", i, n));
@@ -670,7 +670,7 @@ pub fn c16(ctx: &Ctx, rep: &mut Report) {
     let calibrated = model.per_elem != 0;
     rep.notes.push(format!("calibrated size model on this binary: {:?}", model));
     let replay_src = ctx.replay.as_ref().and_then(|r| r.get("src")).and_then(|s| s.as_str()).map(|s| s.to_owned());
-    let n = if replay_src.is_some() { 1 } else { ctx.share(600, 20_000) };
+    let n = if replay_src.is_some() { 1 } else { ctx.share(1_500, 30_000) };
     let sizes = ["0", "1", "7", "1024", "1048576", "17592186044416", "18446744073709551615"];
     for i in 0..n {
         if ctx.out_of_time() && i > n / 3 {
@@ -886,7 +886,7 @@ fn big_program(rng: &mut Rng, i: u64) -> Option<(AST, String)> {
 
 pub fn c11(ctx: &Ctx, rep: &mut Report) {
     // count-based corpus so that every process (round, build) sees the same programs
-    let n = ctx.share(2_000, 60_000);
+    let n = ctx.share(4_000, 80_000);
     let mut sources: Vec<(String, AST, String)> = Vec::new();
     if ctx.shard == 0 {
         for p in corpus("fml") {
